@@ -307,10 +307,11 @@ fn still_fails(g: &dyn Group, ctx: &Ctx, line: &str, want_oracle: bool) -> bool 
 
 fn shrink_line(g: &dyn Group, ctx: &Ctx, line: &str, want_oracle: bool) -> String {
     let mut cur = line.to_owned();
-    let mut budget = 400;
+    let mut budget = 120;
+    let t0 = std::time::Instant::now();
     'outer: loop {
         for cand in g.shrink(&cur) {
-            if budget == 0 {
+            if budget == 0 || t0.elapsed().as_secs() > 20 {
                 break 'outer;
             }
             budget -= 1;
@@ -360,7 +361,7 @@ pub fn run_group(g: &dyn Group, ctx: &Ctx, rng: &mut Rng, corpus: &[String], onl
             distinct.insert(l.clone());
         }
         if let Some((key, what)) = g.oracle(ctx, l, &impl_out[i]) {
-            if res.oracle_failures.len() < 25 {
+            if res.oracle_failures.len() < 3 {
                 let small = shrink_line(g, ctx, l, true);
                 let io = guarded(|| g.run_impl(ctx, &small));
                 let (key, what) = g.oracle(ctx, &small, &io).unwrap_or((key, what));
@@ -373,7 +374,7 @@ pub fn run_group(g: &dyn Group, ctx: &Ctx, rng: &mut Rng, corpus: &[String], onl
     for (j, i) in cmp_idx.iter().enumerate() {
         let (a, b) = (g.canon(&impl_out[*i]), g.canon(&model_out[j]));
         if a != b {
-            if res.disagreements.len() < 25 {
+            if res.disagreements.len() < 3 {
                 let small = shrink_line(g, ctx, &lines[*i], false);
                 let io = guarded(|| g.run_impl(ctx, &small));
                 let mo = run_driver(&ctx.driver, &[g.driver_line(&small)]).map(|v| v[0].clone()).unwrap_or_default();
